@@ -24,6 +24,7 @@ func init() {
 			ruleC15K9(r)
 			ruleNoTruncatedZeroTest(r, "K10", "/wire", "/iscp")
 			ruleDefaultsFillOnlyUnset(r, "K11", "/iscp", "/wire")
+			ruleOptionSetters(r, "K12", "conn_options.go")
 			r.borrow("C06", func() { ruleC06R8(r) }) // a broker ping is never dropped by the demultiplexer
 			r.borrow("C07", func() { ruleC07R2(r) }) // per-alias delivery never blocks the reader that also routes pongs
 			ruleLoopDrivers(r, "K8", "the keep-alive stays periodic: in package wire every receive inside a loop from a time source is a Ticker, a time.After, or a Timer that is re-armed inside the loop when its branch continues the loop", func(fn *ssa.Function) bool { return fnPkgPath(fn) == modPath+"/wire" }, 1)
